@@ -36,6 +36,7 @@ def per_property():
 
 def findings():
     out = ['Every entry reproduces natively through the public API (native twin; several also through the `vata` CLI) and was', 'explained from the source before it was repaired.  All repairs are single unguarded `fix:` commits in /repo; the', 'unedited test suite gives the same results with each of them (4 targets pass, `bdd_bu_tree_aut_test` keeps its 2', 'baseline failures).  `known_findings.json` records them as `fixed` (a fixed entry suppresses nothing).', '',
+           '**Open: C07-1.**  The upward inclusion algorithm shared by the BDD bottom-up encoding (`src/tree_incl_up.hh`) gives every child', 'position that is not being processed the *union* of all macro-states the antichain holds for that child, instead of one macro-state', 'per position in every combination; with a rule of rank >= 2 in the smaller automaton it can answer "included" for a pair that is', 'not included (A = all trees over a, b, g/2; B = trees whose leaves are all a or all b: g(a,b) is missed).  The repair is a rewrite of', 'the post-image computation (enumerate the product of the per-child antichain entries, as the explicit encoding does in', '`explicit_tree_incl_up.cc`) - a first attempt indexed `choices[index]` on possibly empty entries - which is more than a small, safe', 'patch, so the finding stays open: the C07 check excludes exactly its failure signature (rule of rank >= 2 in A, verdict true,', 'oracle false), re-runs the recorded shape on every run and prints `KNOWN-FINDING` while it still reproduces; any other violation on', 'the same inputs (e.g. a wrong "not included", seed C07-r2m3) is still reported.', '',
            '| id | property | fix commit | defect | witness (harness config / inputs) |', '|---|---|---|---|---|']
     for k in kf:
         w = k.get('witness', {})
@@ -58,8 +59,13 @@ def seeded():
             if d: viol = d[0].strip()[:110]
         rows.append('| %s | %s | %s | %s | %s | %s |' % (sid, j.get('breaks_property'), desc.replace('|', '/')[:120], 'yes' if j.get('confirmed_by_us') else 'NO', ', '.join(det) if det else '**missed**', viol.replace('|', '/')))
     if not rows: return '(none yet)'
+    metas = [json.load(open(m)) for m in sorted(glob.glob(os.path.join(VERIF, 'seeded', '*', 'meta.json')))]
+    ids = [os.path.basename(os.path.dirname(m)) for m in sorted(glob.glob(os.path.join(VERIF, 'seeded', '*', 'meta.json')))]
+    missed = [i for i, j in zip(ids, metas) if not (j.get('detected_by') or [])]
+    summary = ['', '**Summary**: %d seeded changes in two rounds (ids `Cxx-mK` first round, `Cxx-r2mK` second round), %d confirmed by us, %d caught by at least one check (quick tier), %d not caught: %s.' % (len(ids), sum(1 for j in metas if j.get('confirmed_by_us')), len(ids) - len(missed), len(missed), ', '.join(missed) or '-'),
+               'The table shows the state after the checks were strengthened (the notes under each property in section 4 say which universes were added for which miss).', 'Not caught: ' + notes.get('_missed', '')]
     return '\n'.join(['Each change was written by a fresh sub-agent that saw only the property text and its own worktree; we confirmed it', '(demo passes on the unmodified tree, fails with the change, test suite unchanged) and ran the listed checks against a', 'worktree with the patch applied (`seedtest.py`).', '',
-                      '| seed | property | change | confirmed | caught by | first violation reported |', '|---|---|---|---|---|---|'] + rows)
+                      '| seed | property | change | confirmed | caught by | first violation reported |', '|---|---|---|---|---|---|'] + rows + summary)
 
 def main():
     p = os.path.join(VERIF, 'DESIGN.md'); s = open(p).read()
